@@ -229,12 +229,66 @@ def expected_tree(meta):
     return out
 
 
+def host_index(searches, names):
+    """The index a host program hands to Metadata.rebuild(filemap, dest): file
+    name -> [(path, size), ...] for every file below the search directories
+    that is called like a file of the torrent (the documented shape; built by
+    the harness with its own walk, not by the library's helper)."""
+    out = {}
+    for root in searches:
+        root = os.fspath(root)
+        if os.path.isfile(root):
+            if os.path.basename(root) in names:
+                out.setdefault(os.path.basename(root), []).append(
+                    (root, os.path.getsize(root)))
+            continue
+        for dirpath, dirnames, filenames in os.walk(root):
+            dirnames.sort()
+            for n in sorted(filenames):
+                p = os.path.join(dirpath, n)
+                if n in names and os.path.isfile(p):
+                    out.setdefault(n, []).append((p, os.path.getsize(p)))
+    return out
+
+
+# the ways a rebuild is driven (DRIVERS[0] is the one every catalogue uses):
+#   lib      Assembler(metafiles, contents, dest).assemble_torrents()
+#   cli      execute(["rebuild", "-m", .., "-c", .., "-d", ..])
+#   command  commands.rebuild(Namespace(metafiles=, contents=, destination=))
+#   hook     a = Assembler(..); for m in a.metafiles: a.rebuild(m)
+#   metadata Metadata(metafile).rebuild(index built by the host, dest)
+DRIVERS = ["lib", "cli", "command", "hook", "metadata"]
+
+
 def run_rebuild(metas, searches, dest, route="lib"):
     try:
         if route == "lib":
             with tf.quiet():
                 a = tf.rebuild.Assembler(list(metas), list(searches), dest)
                 return ("ok", a.assemble_torrents())
+        if route == "hook":
+            # the per-metafile entry point of the Assembler (what a host does
+            # to report progress per torrent or to rebuild a selection)
+            with tf.quiet():
+                a = tf.rebuild.Assembler(list(metas), list(searches), dest)
+                for m in a.metafiles:
+                    a.rebuild(m)
+                return ("ok", None)
+        if route == "metadata":
+            # Metadata driven directly with an index made by the host
+            with tf.quiet():
+                for mp in metas:
+                    if os.path.isdir(mp):
+                        raise ValueError("metadata driver takes files")
+                    m = tf.rebuild.Metadata(mp)
+                    m.rebuild(host_index(searches, set(m.filenames)), dest)
+                return ("ok", None)
+        if route == "command":
+            import argparse
+            ns = argparse.Namespace(metafiles=list(metas),
+                                    contents=list(searches), destination=dest)
+            with tf.quiet():
+                return ("ok", tf.commands.rebuild(ns))
         argv = ["rebuild", "-m"] + list(metas) + ["-c"] + list(searches) + \
             ["-d", dest]
         return ("ok", tf.execute(argv))
@@ -341,6 +395,62 @@ TARGET_KINDS = ["dir+link-file", "dir+link-dangling", "dir+link-dir",
                 "link-dir"]
 
 
+# ------------------------------------------------------- library surface
+# how a host program hands its arguments over / drives the classes (C13)
+FORMS = ["tuple", "generator", "pathlib", "contents-overwritten",
+         "contents-cleared", "metafiles-cleared", "hook", "metadata",
+         "command", "rerun-emptied"]
+FORM_WORLDS = [("D3", [32768 + 1, 0, 7]), ("D2n", [2 * 32768, 32768]),
+               ("S1", [32768 + 5])]
+# several Assembler objects alive at once: pairs of families (every
+# interleaving of construct / run) and one triple (all 90 interleavings)
+LIVE_PAIRS = [["own-v1", "own-v2"], ["own-v2", "own-hybrid"],
+              ["own-hybrid", "own-v1"], ["own-v1", "own-v1"],
+              ["ref-V2", "ref-V1"]]
+LIVE_TRIPLE = ["own-v1", "own-v2", "own-hybrid"]
+LIVE_LISTS = ["own", "scratch"]
+
+
+def interleavings(n):
+    """Every order of the events c0..c(n-1), r0..r(n-1) in which each
+    Assembler is constructed (cK) before it is run (rK)."""
+    out = []
+
+    def rec(seq, made, ran):
+        if len(seq) == 2 * n:
+            out.append(list(seq))
+            return
+        for k in range(n):
+            if k not in made:
+                rec(seq + [f"c{k}"], made | {k}, ran)
+            elif k not in ran:
+                rec(seq + [f"r{k}"], made, ran | {k})
+    rec([], frozenset(), frozenset())
+    return out
+
+
+# ------------------------------------------------------------ path names
+# directories whose NAME reads like something a shell would expand; the
+# process environment has HOME and VERIF_PN set (to places inside the case
+# directory), so that a rewritten path is observable and stays in the sandbox
+PATH_NAMES = ["plain", "$HOME", "${HOME}", "~", "pre_$VERIF_PN",
+              "${VERIF_PN}", "%TEMP%", "~nosuchuser0"]
+PATH_ROLES = ["dest", "search", "metafile", "metadir"]
+PATH_SPELL = ["abs", "rel"]
+PN_VALUE = "val"
+# the two names used under the process-environment axis (absolute spellings
+# only: HOME is whatever the environment says there)
+PATH_NAMES_ENV = ["${VERIF_PN}", "$HOME"]
+
+
+def pname_class(pname):
+    if "$" in pname:
+        return "names-an-environment-variable"
+    if pname.startswith("~"):
+        return "leading-tilde"
+    return "plain"
+
+
 class RebuildCheck:
     def __init__(self, pid):
         self.id = pid
@@ -376,6 +486,42 @@ class RebuildCheck:
                 "like the torrent is excluded (ambiguous with single-file)",
                 "scaled model S = same code with BLOCK_SIZE rebound; every S "
                 "disagreement is reported only after its R image fails too",
+                "library surface (real scale, every family, three worlds): "
+                "the arguments handed over as tuples, one-shot iterators, "
+                "pathlib paths; the caller's own `contents` list overwritten "
+                "(first element replaced by a directory of same-named, "
+                "same-sized, all-different files) or cleared, the `metafiles` "
+                "list cleared, after the constructor returned and before "
+                "assemble_torrents(); the drivers Assembler.rebuild(m) per "
+                "metafile, Metadata(metafile).rebuild(index made by the "
+                "harness' own walk, dest), commands.rebuild(Namespace); a kept "
+                "Assembler run again after the host emptied the destination. "
+                "Reading: the directories handed to the constructor held the "
+                "intact copies, so everything must be restored; a form that "
+                "is refused (raises and leaves the destination empty) is not "
+                "judged, one that is accepted is; the count "
+                "returned by the second run of a kept Assembler is judged "
+                "against its (again empty) destination",
+                "several Assembler objects alive at once: every interleaving "
+                "of [construct k, run k] that constructs before it runs, for "
+                "five pairs of families (6 orders each) and one triple v1 / "
+                "v2 / hybrid (90 orders), each Assembler with a torrent, "
+                "search directory (intact copies + same-named decoys) and "
+                "empty destination of its own; x {every Assembler is given a "
+                "list of its own, the host re-uses one scratch list that it "
+                "clears and refills before each construction}; every "
+                "destination must be complete and every returned count <= the "
+                "files present in that Assembler's destination when it "
+                "returns (under-counting is not judged)",
+                "path names: the destination / a search directory / the "
+                "metafile / a directory of metafiles is a directory literally "
+                "called '$HOME', '${HOME}', '~', 'pre_$VERIF_PN', "
+                "'${VERIF_PN}', '%TEMP%', '~nosuchuser0' (and 'plain' as the "
+                "control), HOME and VERIF_PN set in the process environment to "
+                "places inside the case directory; given by absolute path and "
+                "relative to the working directory; library and CLI; v1 / v2 "
+                "/ hybrid.  '~user' of an existing account is left out (its "
+                "expansion cannot be kept inside the sandbox)",
             ],
             "C14": [
                 "destination pre-states per target path: absent, correct, "
@@ -404,6 +550,36 @@ class RebuildCheck:
                 "never be written (wrong length); decoys are tried in both "
                 "listing orders",
                 "destination is disjoint from search directories and metafiles",
+                "the metafile-inside-the-destination worlds also through the "
+                "library's other entry points: history [Assembler.rebuild(m) "
+                "per metafile, Metadata(metafile).rebuild(index made by the "
+                "harness, dest)] (thorough: both orders, and "
+                "commands.rebuild(Namespace) twice)",
+                "path names: the destination / a search directory / the "
+                "metafile / a directory of metafiles is a directory literally "
+                "called '$HOME', '${HOME}', '~', 'pre_$VERIF_PN', "
+                "'${VERIF_PN}', '%TEMP%', '~nosuchuser0', 'plain', with HOME "
+                "and VERIF_PN set in the process environment to places inside "
+                "the case directory; absolute and relative spelling; library "
+                "and CLI; v1 / v2 / hybrid.  Reading: 'the path the metafile "
+                "assigns' lies below the directory that was given, spelled as "
+                "given; a regular file that appears or changes anywhere else "
+                "in the case directory is written at an unassigned path "
+                "(directories made elsewhere are C19's subject)",
+                "process-environment axis: the rebuild (library) of that world "
+                "with the destination / the search directory called "
+                "'${VERIF_PN}' and '$HOME' (absolute spelling), in a child "
+                "interpreter under every member of mc.envrun.ENVS (terminal "
+                "widths, -O / PYTHONOPTIMIZE=2, ASCII file system encoding, "
+                "POSIX locale, stdout closed / full / a file / ASCII-only, "
+                "removed working directory, -W error, TORRENTFILE_DEBUG, low "
+                "recursion limit, 64 file descriptors, umasks, no HOME, far "
+                "time zone, small io buffer) x v1 / v2 / hybrid; one file "
+                "name is not ASCII.  Reading: in every environment rebuild "
+                "either works or refuses (raises / the child dies); a refusal "
+                "is never a violation; whatever it wrote is judged by the "
+                "same snapshots (sources unchanged, written files are copies "
+                "of candidates at assigned paths below the given destination)",
             ],
             "C19": [
                 "hostile name / path elements: every sequence of length <= 2 "
@@ -466,6 +642,26 @@ class RebuildCheck:
                 "low-level mutations outside the destination count even when "
                 "the operating system rejects them; the destination directory "
                 "itself is not judged; hard links are not planted",
+                "drivers: the hostile catalogue runs through "
+                "Assembler(...).assemble_torrents(); the part of it with path "
+                "element sequences of length <= 1 (every name x element x "
+                "final element x {full, zero-length, single-file} x {victim "
+                "file planted or not}, after a benign entry, symlink in the "
+                "destination) also through the command line (there without "
+                "the planted victim files), "
+                "Assembler.rebuild(m) called per metafile by the host, and "
+                "Metadata(metafile).rebuild(index, dest) called directly with "
+                "an index {name: [(path, size)]} made by the harness' own "
+                "walk (thorough: commands.rebuild(Namespace) too, and the "
+                "full catalogue through every driver)",
+                "path names: the destination (also a search directory, the "
+                "metafile, a directory of metafiles) is a directory literally "
+                "called '$HOME', '${HOME}', '~', 'pre_$VERIF_PN', "
+                "'${VERIF_PN}', '%TEMP%', '~nosuchuser0', 'plain', with HOME "
+                "and VERIF_PN set in the process environment to places inside "
+                "the case directory; absolute and relative spelling; library "
+                "and CLI; benign metafile; 'the destination it was given' is "
+                "the directory of that name, whatever the environment holds",
             ],
         }[pid]
         self.rule = {
@@ -474,17 +670,29 @@ class RebuildCheck:
                    "orders of the metafile directory; + name length x "
                    "encoding x position of the long name x family x "
                    "scattering x decoy; + many-files worlds x family x "
-                   "scattering); transition = one "
+                   "scattering; + family x world x library form (argument "
+                   "types, caller's lists mutated after construction, "
+                   "drivers, kept object run again); + families x every "
+                   "interleaving of construct / run of two and three live "
+                   "Assemblers x {own lists, one re-used scratch list}; + "
+                   "version x role of the specially named directory x name x "
+                   "spelling x route); transition = one "
                    "Assembler.assemble_torrents() on the real code; oracle = "
                    "destination equals the reference layout byte for byte",
             "C14": "explicit-state search over rebuild histories from every "
                    "destination pre-state vector (x decoy kind incl. pad-named "
                    "decoys x listing order; + metafile location inside the "
-                   "destination x layout x payload size); state = canonical "
+                   "destination x layout x payload size x driver history; + "
+                   "version x role of the specially named directory x name x "
+                   "spelling x route; + version x process environment x name "
+                   "x role, in child interpreters); state = canonical "
                    "destination + search trees; invariants evaluated on every "
                    "transition (snapshots + audit hook)",
             "C19": "full product of hostile names x path element sequences x "
-                   "version; + version x OS-level refusal of the copy x "
+                   "version; + version x driver x hostile names x path "
+                   "element sequences of length <= 1; + version x role of the "
+                   "specially named directory x name x spelling x route; + "
+                   "version x OS-level refusal of the copy x "
                    "metafile kind x destination spelling x surroundings x "
                    "route; + the same under the FS-operation shim, deviation "
                    "bound 1; + version x kind of symlink planted in the "
@@ -520,6 +728,25 @@ class RebuildCheck:
                                "seed": seed, "tier": tier})
                 gs.append({"kind": "target-pre", "version": ver,
                            "seed": seed, "tier": tier})
+            # the hostile metafiles through the other ways of driving a
+            # rebuild (path element sequences of length <= 1)
+            for ver in (1, 2, 3):
+                for route in DRIVERS[1:]:
+                    if quick and route == "command":
+                        # (differs from `lib` by an existence test only)
+                        continue
+                    for half in (0, 1):
+                        gs.append({"kind": "hostile", "version": ver,
+                                   "route": route, "subset": True,
+                                   "half": half, "seed": seed})
+                if not quick:
+                    for route in DRIVERS[1:]:
+                        for ni in range(len(self.hostile_alphabet("X")) + 1):
+                            gs.append({"kind": "hostile", "version": ver,
+                                       "ni": ni, "route": route,
+                                       "seed": seed})
+                gs.append({"kind": "pathnames", "version": ver, "seed": seed,
+                           "tier": tier})
             return gs
         if self.id == "C14":
             for fam in FAMILIES:
@@ -532,6 +759,16 @@ class RebuildCheck:
             for fam in FAMILIES:
                 gs.append({"kind": "metadest", "family": fam, "seed": seed,
                            "tier": tier})
+            for ver in (1, 2, 3):
+                gs.append({"kind": "pathnames", "version": ver, "seed": seed,
+                           "tier": tier})
+            # the same under every member of the process-environment alphabet
+            # (child interpreters)
+            from mc import envrun
+            for envname in envrun.ENVS:
+                for ver in (1, 2, 3):
+                    gs.append({"kind": "pathnames", "version": ver,
+                               "env": envname, "seed": seed, "tier": tier})
             return gs
         # C13
         for B in ([2] if quick else [2, 4]):
@@ -578,6 +815,17 @@ class RebuildCheck:
                    "worlds": [list(t) for t in world.text_like_worlds()],
                    "seed": seed, "tier": tier})
         gs.append({"kind": "batch", "seed": seed, "tier": tier})
+        # the library surface: argument forms and drivers; several
+        # Assemblers alive at once in every order of construction and run
+        for fam in FAMILIES:
+            gs.append({"kind": "forms", "family": fam, "seed": seed,
+                       "tier": tier})
+        for fams in LIVE_PAIRS + [LIVE_TRIPLE]:
+            gs.append({"kind": "live", "fams": fams, "seed": seed,
+                       "tier": tier})
+        for ver in (1, 2, 3):
+            gs.append({"kind": "pathnames", "version": ver, "seed": seed,
+                       "tier": tier})
         # file names near NAME_MAX: 241, 242, 250, 251, 255 bytes, ASCII and
         # multi-byte UTF-8 with the same byte lengths (real scale)
         for nbytes in world.LONG_NAME_LENGTHS:
@@ -825,6 +1073,403 @@ class RebuildCheck:
                                "perm": list(perm) if perm else None}, d))
         return found
 
+    # ------------------------------------------- C13: the library surface
+    def form_case(self, c, res):
+        """One torrent whose files all have an intact copy in the search
+        directories handed to the Assembler, rebuilt by a host program that
+        hands its arguments over / drives the classes in one of FORMS.  The
+        caller's list objects are the caller's: what it does with them after
+        the constructor returned must not matter."""
+        import pathlib
+        seed, fam, form = c["seed"], c["family"], c["form"]
+        w = c["world"]
+        P, B = w["P"], w["B"]
+        files = world.files_of(w, seed)
+        tree = dict(files)
+        sb = world.fresh_dir("c13f_")
+        try:
+            srcp = os.path.join(sb, "src")
+            os.mkdir(srcp)
+            srcroot = world.materialize(files, srcp, shape=w["shape"])
+            mp = os.path.join(sb, "m.torrent")
+            raw = make_meta(fam, tree, P, B, srcroot, mp)
+            meta = bencode.decode(raw, strict=False)
+            shutil.rmtree(srcp)
+            dirs, placed = scatter_files(files, sb, "split")
+            # a directory that is NOT handed over: same names and sizes,
+            # entirely different bytes
+            other = os.path.join(sb, "other")
+            os.mkdir(other)
+            for i, (rel, data) in enumerate(files):
+                base = rel[-1] if rel else NAME
+                world.write_file(os.path.join(other, f"n{i}", base),
+                                 bytes((b ^ 0x5A) or 0x11 for b in data))
+            dest = os.path.join(sb, "dest")
+            os.mkdir(dest)
+            A = tf.rebuild.Assembler
+            try:
+                with tf.quiet():
+                    if form == "tuple":
+                        st = ("ok", A((mp,), tuple(dirs),
+                                      dest).assemble_torrents())
+                    elif form == "generator":
+                        st = ("ok", A(iter([mp]), (d for d in dirs),
+                                      dest).assemble_torrents())
+                    elif form == "pathlib":
+                        st = ("ok", A([mp], [pathlib.Path(d) for d in dirs],
+                                      pathlib.Path(dest)).assemble_torrents())
+                    elif form in ("contents-overwritten", "contents-cleared"):
+                        folders = list(dirs)
+                        a = A([mp], folders, dest)
+                        if form == "contents-cleared":
+                            folders.clear()
+                        else:
+                            folders[0] = other
+                        st = ("ok", a.assemble_torrents())
+                    elif form == "metafiles-cleared":
+                        metas = [mp]
+                        a = A(metas, list(dirs), dest)
+                        metas.clear()
+                        st = ("ok", a.assemble_torrents())
+                    elif form == "rerun-emptied":
+                        # a kept object asked again after the host emptied
+                        # the destination
+                        a = A([mp], list(dirs), dest)
+                        a.assemble_torrents()
+                        shutil.rmtree(dest)
+                        os.mkdir(dest)
+                        st = ("ok", a.assemble_torrents())
+                    elif form in ("hook", "metadata", "command"):
+                        st = run_rebuild([mp], dirs, dest, form)
+                    else:
+                        raise ValueError(form)
+            except Exception as e:  # noqa
+                st = ("raised:" + type(e).__name__, str(e)[:120])
+            res.transitions += 1
+            res.evals += 1
+            res.validated += 1
+            res.states += 1
+            probs = self.judge_c13(meta, tree, dest, st[0], st[1])
+            if st[0] != "ok" and not (os.path.isdir(dest)
+                                      and world.read_tree(dest)):
+                # the statement is silent about argument types and entry
+                # points: a form that is refused (raises, nothing written) is
+                # not judged; one that is accepted must restore everything
+                res.outcomes[f"form:{form}:refused"] += 1
+                res.extra["library_forms_refused"] += 1
+                return []
+            res.outcomes[f"form:{form}:" + (probs[0][0] if probs
+                                            else "ok")] += 1
+            found = []
+            for p, d in probs:
+                sig = f"C13|{fam}|{p}|library-form:{form}"
+                if p == "counted-more-than-present" and \
+                        form == "rerun-emptied":
+                    # one call site (the counter is never reset), every family
+                    sig = ("C13|kept-assembler-run-again|counted-more-than-"
+                           "present")
+                found.append((sig, dict(c, kind="form"), d))
+            return found
+        finally:
+            shutil.rmtree(sb, ignore_errors=True)
+
+    def run_forms(self, g, res):
+        found = []
+        P = 32768
+        for sh, sizes in FORM_WORLDS:
+            w = {"scale": "R", "B": REAL_B, "P": P, "shape": sh,
+                 "sizes": sizes}
+            for form in FORMS:
+                found += self.form_case(
+                    {"world": w, "family": g["family"], "form": form,
+                     "seed": g["seed"]}, res)
+        res.sample({"kind": "forms", "family": g["family"],
+                    "forms": len(FORMS), "worlds": len(FORM_WORLDS)})
+        return found
+
+    def live_setup(self, fams, seed):
+        """One torrent per family (three files each, different bytes), each
+        with a search directory of its own that holds an intact copy of every
+        file next to a same-named decoy."""
+        P = 32768
+        sb = world.fresh_dir("c13l_")
+        sizes = [[P + 1, 0, 7], [P, 3, 2 * P], [5, 2 * P + 1, 0]]
+        torrents = []
+        for k, fam in enumerate(fams):
+            name = f"t{k}"
+            files = [(rel, world.content(seed, f"live{k}:{i}", n))
+                     for i, (rel, n) in enumerate(zip(
+                         [("a",), ("d", "b"), ("e",)], sizes[k % 3]))]
+            srcp = os.path.join(sb, f"src{k}")
+            os.mkdir(srcp)
+            root = world.materialize(files, srcp, name=name)
+            mp = os.path.join(sb, f"{name}.torrent")
+            raw = make_meta(fam, dict(files), P, REAL_B, root, mp, name=name)
+            shutil.rmtree(srcp)
+            sdir = os.path.join(sb, f"search{k}")
+            for i, (rel, data) in enumerate(files):
+                world.write_file(os.path.join(sdir, f"k{i}", "j", rel[-1]),
+                                 data)
+                if data:
+                    world.write_file(
+                        os.path.join(sdir, f"k{i}", "!decoy", rel[-1]),
+                        bytes((b ^ 0x5A) or 0x11 for b in data))
+            torrents.append({"mp": mp, "dirs": [sdir], "tree": dict(files),
+                             "meta": bencode.decode(raw, strict=False)})
+        return sb, torrents
+
+    def live_case(self, sb, torrents, c, res, tag):
+        """Several Assemblers alive at once, constructed and run in the order
+        c["order"].  lists = 'own': each is given a list of its own;
+        'scratch': the host re-uses one list (cleared and refilled before
+        each construction).  Judged: every destination is complete, and every
+        returned count is <= the files present in that Assembler's (initially
+        empty) destination."""
+        lists = c["lists"]
+        folders = []
+        alive = {}
+        dests = {}
+        probs = []
+        for ev in c["order"]:
+            k = int(ev[1:])
+            t = torrents[k]
+            if ev[0] == "c":
+                dests[k] = os.path.join(sb, f"dest_{tag}_{k}")
+                os.mkdir(dests[k])
+                if lists == "scratch":
+                    folders.clear()
+                    folders.extend(t["dirs"])
+                    mine = folders
+                else:
+                    mine = list(t["dirs"])
+                try:
+                    with tf.quiet():
+                        alive[k] = tf.rebuild.Assembler([t["mp"]], mine,
+                                                        dests[k])
+                except Exception as e:  # noqa
+                    probs.append((f"construction-raised:{type(e).__name__}",
+                                  [ev, str(e)[:120]]))
+                continue
+            if k not in alive:
+                continue
+            try:
+                with tf.quiet():
+                    st, cnt = "ok", alive[k].assemble_torrents()
+            except Exception as e:  # noqa
+                st, cnt = "raised:" + type(e).__name__, str(e)[:120]
+            res.transitions += 1
+            # the count, judged when it is returned
+            for p, d in self.judge_c13(t["meta"], t["tree"], dests[k], st,
+                                       cnt):
+                if p == "counted-more-than-present" or p.startswith(
+                        "rebuild-"):
+                    probs.append((p, [ev, d]))
+        # the trees, judged when everything has run
+        for k, t in enumerate(torrents):
+            for p, d in self.judge_c13(t["meta"], t["tree"], dests[k], "ok",
+                                       None):
+                probs.append((p, [f"r{k}", d]))
+        res.evals += 1
+        res.validated += 1
+        res.states += 1
+        res.outcomes["live:" + (probs[0][0] if probs else "ok")] += 1
+        for d_ in dests.values():
+            shutil.rmtree(d_, ignore_errors=True)
+        found = []
+        for p, d in model._dedup(probs):
+            if p == "counted-more-than-present":
+                # one call site (the callback of the last Assembler made is
+                # registered on the class), every family and order
+                sig = "C13|several-live-assemblers|counted-more-than-present"
+            else:
+                sig = (f"C13|several-live-assemblers|{p}|"
+                       f"{'+'.join(c['fams'])}|lists={lists}")
+            found.append((sig, dict(c, kind="live"), d))
+        return found
+
+    def run_live(self, g, res):
+        fams, seed = g["fams"], g["seed"]
+        sb, torrents = self.live_setup(fams, seed)
+        found = []
+        n = 0
+        try:
+            for order in interleavings(len(fams)):
+                for lists in LIVE_LISTS:
+                    n += 1
+                    found += self.live_case(
+                        sb, torrents, {"fams": fams, "order": order,
+                                       "lists": lists, "seed": seed},
+                        res, str(n))
+        finally:
+            shutil.rmtree(sb, ignore_errors=True)
+        res.sample({"kind": "live", "fams": fams, "cases": n})
+        return found
+
+    # ------------------------------------- C13 / C14 / C19: path names
+    def pathname_case(self, c, res):
+        """A destination / search directory / metafile (directory) whose NAME
+        contains `$NAME`, `${NAME}` with NAME set in the process environment,
+        begins with `~`, or looks like `%NAME%`, given by its absolute path or
+        relative to the working directory.  A path is a path: the copies
+        belong below the directory that was GIVEN (C14: 'placed at the path the
+        metafile assigns'; C19: nothing outside the destination; C13: the
+        torrent is restored from the given search directories).  With
+        c["env"] the rebuild runs in a child interpreter under that member of
+        envrun.ENVS (library route, absolute spellings)."""
+        ver, role, pname, spell = c["version"], c["role"], c["pname"], \
+            c["spell"]
+        route, seed, envname = c["route"], c["seed"], c.get("env")
+        P = 16384
+        tree = {("a",): world.content(seed, 0, P + 3),
+                ("d", "bé"): world.content(seed, 1, 7),
+                ("e",): b""}
+        cr = os.path.realpath(world.fresh_dir("pn_"))
+        saved = {k: os.environ.get(k) for k in ("HOME", "VERIF_PN")}
+        try:
+            home = os.path.join(cr, "home")
+            work = os.path.join(cr, "work")
+            special = os.path.join(work, pname)
+            world.write_file(os.path.join(home, "unrelated.txt"), b"mine")
+            os.makedirs(special)
+            search = special if role == "search" else \
+                os.path.join(cr, "search")
+            rd = special if role == "dest" else os.path.join(cr, "dest")
+            mdir = special if role in ("metafile", "metadir") else \
+                os.path.join(cr, "metas")
+            for p in (search, rd, mdir):
+                os.makedirs(p, exist_ok=True)
+            for i, (rel, data) in enumerate(sorted(tree.items())):
+                world.write_file(os.path.join(search, f"k{i}", "j", rel[-1]),
+                                 data)
+            mp = os.path.join(mdir, "m.torrent")
+            with open(mp, "wb") as f:
+                f.write(self._encode(ver, "top", tree, P))
+            meta = bencode.decode(self._encode(ver, "top", tree, P),
+                                  strict=False)
+            marg = mdir if role == "metadir" else mp
+            cwd = None
+            args = [marg, search, rd]
+            if spell == "rel":
+                cwd = work
+                args = [os.path.relpath(p, work) for p in args]
+            before = world.snapshot(cr)
+            before_dest = world.read_tree(rd)
+            events = []
+            if envname:
+                from mc import envrun
+                body = (
+                    "import os\n"
+                    f"os.environ['VERIF_PN'] = {PN_VALUE!a}\n"
+                    "from torrentfile.rebuild import Assembler\n"
+                    f"a = Assembler([{args[0]!a}], [{args[1]!a}], "
+                    f"{args[2]!a})\n"
+                    "OBS = a.assemble_torrents()\n")
+                rep = envrun.run(envname, body, cwd=cwd)
+                if rep["ok"]:
+                    st, cnt = "ok", rep["obs"]
+                elif rep["report"]:
+                    st, cnt = "raised:" + str(rep["exc"]), rep["msg"]
+                else:
+                    st, cnt = "raised:child-died", f"rc={rep['rc']}"
+            else:
+                os.environ["HOME"] = home
+                os.environ["VERIF_PN"] = PN_VALUE
+                with working_dir(cwd), seams.Audit(None) as audit:
+                    st, cnt = run_rebuild([args[0]], [args[1]], args[2],
+                                          route)
+                events = audit.events
+            after = world.snapshot(cr)
+            after_dest = world.read_tree(rd)
+            res.transitions += 1
+            res.evals += 1
+            res.validated += 1
+            res.states += 1
+            drel = os.path.relpath(rd, cr)
+
+            def in_dest(k):
+                return k == drel or k.startswith(drel + os.sep)
+            changed = sorted(k for k in set(before) | set(after)
+                             if before.get(k) != after.get(k))
+            outside = [k for k in changed if not in_dest(k)]
+            probs = []
+            if self.id == "C19":
+                bad_ev = events_outside(events, rd)
+                if outside:
+                    probs.append(("changed-outside-destination", outside[:5]))
+                elif bad_ev:
+                    probs.append(("mutating-event-outside-destination",
+                                  bad_ev[:4]))
+            elif self.id == "C14":
+                srcs = [os.path.relpath(p, cr) for p in (search, mdir)
+                        if p != rd]
+                ch = [k for k in outside if any(
+                    k == s or k.startswith(s + os.sep) for s in srcs)]
+                if ch:
+                    probs.append(("search-dirs-or-metafiles-changed", ch[:4]))
+                # a regular file that appeared / changed anywhere else is a
+                # file written at a path the metafile does not assign
+                stray = [k for k in outside if k not in ch
+                         and after.get(k, ("",))[0] == "f"]
+                if stray:
+                    probs.append(("wrote-at-unassigned-path", stray[:4]))
+                srcfiles = {}
+                for rel, data in world.read_tree(search).items():
+                    srcfiles.setdefault(rel[-1], []).append(data)
+                probs += written_probs(before_dest, after_dest,
+                                       expected_tree(meta), pad_entries(meta),
+                                       srcfiles, set())
+            elif not envname:
+                # (a hostile process environment may make rebuild refuse;
+                # C13 is judged in the harness' own environment only)
+                probs += self.judge_c13(meta, tree, rd, st, cnt)
+            res.outcomes[f"pathname:{role}:{pname_class(pname)}:" +
+                         ("env:" if envname else "") +
+                         f"{st.split(':')[0]}/" +
+                         (probs[0][0] if probs else "ok")] += 1
+            found = []
+            for p, d in model._dedup(probs):
+                sig = (f"{self.id}|v{ver}|{p}|path-name-of-the-"
+                       f"{'destination' if role == 'dest' else role}|"
+                       f"{pname_class(pname)}" +
+                       ("|process-environment" if envname else ""))
+                found.append((sig, dict(c, kind="pathname"),
+                              {"problem": d, "given": args, "rebuild": st,
+                               "cwd": cwd and cwd.replace(cr, "<case>")}))
+            return found
+        finally:
+            for k, v in saved.items():
+                if v is None:
+                    os.environ.pop(k, None)
+                else:
+                    os.environ[k] = v
+            shutil.rmtree(cr, ignore_errors=True)
+
+    def run_pathnames(self, g, res):
+        found = []
+        n = 0
+        if g.get("env"):
+            for pname in PATH_NAMES_ENV:
+                for role in ("dest", "search"):
+                    found += self.pathname_case(
+                        {"version": g["version"], "role": role,
+                         "pname": pname, "spell": "abs", "route": "lib",
+                         "env": g["env"], "seed": g["seed"]}, res)
+                    n += 1
+            res.sample({"kind": "pathname", "version": g["version"],
+                        "env": g["env"], "cases": n})
+            return found
+        for role in PATH_ROLES:
+            for pname in PATH_NAMES:
+                for spell in PATH_SPELL:
+                    for route in ("lib", "cli"):
+                        found += self.pathname_case(
+                            {"version": g["version"], "role": role,
+                             "pname": pname, "spell": spell, "route": route,
+                             "seed": g["seed"]}, res)
+                        n += 1
+        res.sample({"kind": "pathname", "version": g["version"], "cases": n})
+        return found
+
     # ------------------------------------------------------------- C14
     def run_prestate(self, g, res):
         seed, fam, sh = g["seed"], g["family"], g["shape"]
@@ -1046,7 +1691,8 @@ class RebuildCheck:
         shutil.rmtree(sb, ignore_errors=True)
         return found
 
-    def c14_metadest(self, fam, layout, size, where, seed, res, quick=True):
+    def c14_metadest(self, fam, layout, size, where, seed, res, quick=True,
+                     hist=None):
         """The metafile itself lives inside the destination (the statement
         constrains the destination against the search directories only):
         'at-payload-path' = exactly where it tells rebuild to put a payload
@@ -1086,7 +1732,9 @@ class RebuildCheck:
             for rel, data in world.read_tree(d_).items():
                 srcfiles.setdefault(rel[-1], []).append(data)
         outside_before = world.snapshot(sb)
-        hist = ["lib", "lib"] if quick else ["lib", "cli", "lib"]
+        # (hist: the drivers of the successive rebuilds, see DRIVERS)
+        given_hist = hist
+        hist = hist or (["lib", "lib"] if quick else ["lib", "cli", "lib"])
         for step, route in enumerate(hist):
             if not os.path.isfile(mp):
                 break
@@ -1127,8 +1775,11 @@ class RebuildCheck:
             res.outcomes["metadest:" + (probs[0][0] if probs else "ok")] += 1
             for p, d in model._dedup(probs):
                 sig = (f"C14|{fam}|{p}|metafile-inside-destination-"
-                       f"{where}|{layout}")
-                if p == "metafile-altered" and where == "at-payload-path":
+                       f"{where}|{layout}" +
+                       (f"|driver={route}" if route not in ("lib", "cli")
+                        else ""))
+                if p == "metafile-altered" and where == "at-payload-path" \
+                        and route in ("lib", "cli"):
                     # one call site (the copy onto a shorter existing file),
                     # one input class, every family
                     sig = ("C14|copypath|metafile-altered|metafile-stored-"
@@ -1136,7 +1787,8 @@ class RebuildCheck:
                 found.append((sig,
                               {"kind": "metadest", "family": fam,
                                "layout": layout, "size": size,
-                               "where": where, "seed": seed, "quick": quick},
+                               "where": where, "seed": seed, "quick": quick,
+                               "hist": given_hist},
                               d))
         shutil.rmtree(sb, ignore_errors=True)
         return found
@@ -1151,6 +1803,14 @@ class RebuildCheck:
                     found += self.c14_metadest(
                         g["family"], layout, size, where, g["seed"], res,
                         g["tier"] == "quick")
+                    # the library's other entry points
+                    for hist in ([["hook", "metadata"]]
+                                 if g["tier"] == "quick" else
+                                 [["hook", "metadata"], ["metadata", "hook"],
+                                  ["command", "command"]]):
+                        found += self.c14_metadest(
+                            g["family"], layout, size, where, g["seed"], res,
+                            g["tier"] == "quick", hist=hist)
         return found
 
     # ------------------------------------------------------------- C19
@@ -1162,6 +1822,14 @@ class RebuildCheck:
     def run_hostile(self, g, res):
         seed, ver = g["seed"], g["version"]
         found = []
+        route = g.get("route") or "lib"
+        subset = bool(g.get("subset"))
+        if subset and "ni" not in g:
+            # driver groups: every name, split over two groups
+            for ni in range(len(self.hostile_alphabet("X")) + 1):
+                if ni % 2 == g["half"]:
+                    found += self.run_hostile(dict(g, ni=ni), res)
+            return found
         P = 16384
         data = world.content(seed, 0, P + 3)
         sb = world.fresh_dir("c19_")
@@ -1172,8 +1840,8 @@ class RebuildCheck:
         alpha = self.hostile_alphabet(abs_target)
         names = ["top"] + alpha
         name = names[g["ni"]]
-        elem_seqs = [()] + [(a,) for a in alpha] + list(
-            itertools.product(alpha, repeat=2))
+        elem_seqs = [()] + [(a,) for a in alpha] + ([] if subset else list(
+            itertools.product(alpha, repeat=2)))
         lasts = ["f", "..", "a/../../f"]
         search = os.path.join(sb, "search")
         world.write_file(os.path.join(search, "f"), data)
@@ -1204,7 +1872,11 @@ class RebuildCheck:
             for link_at in ("top", "top/d"):
                 for body in (data, b""):
                     variants.append((("d",), "f", False, body, link_at))
-        variants = [v + (vic,) for v in variants for vic in (False, True)]
+        # (the command line differs from `lib` before the Assembler is made
+        # only: its driver group goes without the planted victim files)
+        variants = [v + (vic,) for v in variants
+                    for vic in ((False,) if subset and route == "cli"
+                                else (False, True))]
         for seq, last, single, data, link_at, victims in variants:
             if True:
                 if True:
@@ -1278,7 +1950,7 @@ class RebuildCheck:
                             continue
                     before = world.snapshot(sb)
                     with seams.Audit(None) as audit:
-                        st, cnt = run_rebuild([mp], [search], dest)
+                        st, cnt = run_rebuild([mp], [search], dest, route)
                     after = world.snapshot(sb)
                     res.transitions += 1
                     res.evals += 1
@@ -1317,8 +1989,10 @@ class RebuildCheck:
                         if benign_first:
                             hostile += "+after-a-benign-entry"
                         found.append((
-                            f"C19|v{ver}|{prob}|hostile-{hostile}",
+                            f"C19|v{ver}|{prob}|hostile-{hostile}" +
+                            (f"|driver={route}" if route != "lib" else ""),
                             {"kind": "hostile", "version": ver,
+                             "route": route, "subset": subset,
                              "ni": g["ni"], "seq": list(seq), "last": last,
                              "single": single, "seed": seed,
                              "empty": not data, "link": link_at,
@@ -1344,7 +2018,7 @@ class RebuildCheck:
                         elif os.path.exists(t):
                             os.remove(t)
         res.sample({"kind": "hostile", "version": ver, "name": name,
-                    "cases": n})
+                    "driver": route, "cases": n})
         return found
 
     def run_hostile_rel(self, g, res):
@@ -1912,10 +2586,13 @@ class RebuildCheck:
     def run_group(self, g):
         res = core.Result()
         seed = g["seed"]
-        if g["kind"] in ("env", "env-shim", "links", "target-pre"):
+        if g["kind"] in ("env", "env-shim", "links", "target-pre", "forms",
+                         "live", "pathnames"):
             fn = {"env": self.run_env, "env-shim": self.run_env_shim,
                   "links": self.run_links,
-                  "target-pre": self.run_target_pre}[g["kind"]]
+                  "target-pre": self.run_target_pre,
+                  "forms": self.run_forms, "live": self.run_live,
+                  "pathnames": self.run_pathnames}[g["kind"]]
             for sig, case, d in fn(g, res):
                 res.violation(sig, case, d)
             return res
@@ -2036,7 +2713,8 @@ class RebuildCheck:
         elif kind == "hostile":
             found = [f for f in self.run_hostile(
                 {"seed": case["seed"], "version": case["version"],
-                 "ni": case["ni"]}, res)
+                 "ni": case["ni"], "route": case.get("route"),
+                 "subset": case.get("subset")}, res)
                 if f[1]["seq"] == case["seq"] and f[1]["last"] == case["last"]
                 and f[1]["single"] == case["single"]
                 and f[1].get("empty") == case.get("empty")
@@ -2061,6 +2739,23 @@ class RebuildCheck:
                 {k: case.get(k) for k in ("version", "target", "name", "seq",
                                           "single", "empty", "route",
                                           "seed")}, res) or []
+        elif kind == "form":
+            found = self.form_case(
+                {k: case[k] for k in ("world", "family", "form", "seed")},
+                res)
+        elif kind == "live":
+            sb, torrents = self.live_setup(case["fams"], case["seed"])
+            try:
+                found = self.live_case(
+                    sb, torrents, {k: case[k] for k in
+                                   ("fams", "order", "lists", "seed")},
+                    res, "replay")
+            finally:
+                shutil.rmtree(sb, ignore_errors=True)
+        elif kind == "pathname":
+            found = self.pathname_case(
+                {k: case.get(k) for k in ("version", "role", "pname", "spell",
+                                          "route", "env", "seed")}, res)
         elif kind == "prestate":
             w = case["world"]
             files = world.files_of(w, case["seed"])
@@ -2074,7 +2769,8 @@ class RebuildCheck:
             found = self.c14_metadest(case["family"], case["layout"],
                                       case["size"], case["where"],
                                       case["seed"], res,
-                                      case.get("quick", True))
+                                      case.get("quick", True),
+                                      hist=case.get("hist"))
         else:
             found = self.c13_world(case["world"], case["seed"], res,
                                    [case["family"]], [case["scatter"]],
